@@ -7,7 +7,7 @@ use verif_harness::Rng;
 
 use super::{show_x, X};
 
-pub const RULE: &str = "TOML files rendered from a generated abstract structure: 0..40 [[listeners]] (http/https/tcp/udp, v4/v6, timeouts, sticky name, ALPN lists, H2 knobs, TLS versions, certificates, expect_proxy, public_address, UDP knobs), 0..60 clusters (sometimes up to 300 backends or frontends so that more than 256 messages are generated) with http/tcp protocol, load balancing, sticky/redirect/http2/per-cluster overrides/health checks, frontends on explicit listeners or on addresses without listener (default listeners), hostnames, PREFIX/REGEX/EQUALS paths, methods, positions, tags, per-frontend certificates, redirects, rewrites, headers, HSTS, backends with ids/weights/sticky ids/backup; 25% constraint-violating neighbours (unknown protocol/field/value, missing hostname, bad address, invalid ALPN, HSTS on plain HTTP, duplicate listener address, frontend on a listener of the wrong protocol, certificate on an HTTP listener, HTTPS listener without any certificate, HTTP/2 with a too small buffer, public_address with expect_proxy, mixed expect_proxy frontends, automatic_state_save without path); 8% hazards the loader is known not to check (duplicate frontends, duplicate backends, invalid health check); non-trivial = at least 4 messages generated or more than 256; distinct = distinct op sequence";
+pub const RULE: &str = "TOML files rendered from a generated abstract structure: 0..40 [[listeners]] (http/https/tcp/udp, v4/v6, timeouts, sticky name, ALPN lists, H2 knobs, TLS versions, certificates, expect_proxy, public_address, UDP knobs), 0..60 clusters (sometimes up to 300 backends or frontends so that more than 256 messages are generated) with http/tcp protocol, load balancing, sticky/redirect/http2/per-cluster overrides/health checks, frontends on explicit listeners or on addresses without listener (default listeners), hostnames, PREFIX/REGEX/EQUALS paths, methods, positions, tags, per-frontend certificates, redirects, rewrites, headers, HSTS, backends with ids/weights/sticky ids/backup, groups of backends sharing one backend_id across v4/v6 addresses and ports with weights / sticky ids / backup flags ordered against the addresses; the command list is dispatched three times (load, reload, reload); 25% constraint-violating neighbours (unknown protocol/field/value, missing hostname, bad address, invalid ALPN, HSTS on plain HTTP, duplicate listener address, frontend on a listener of the wrong protocol, certificate on an HTTP listener, HTTPS listener without any certificate, HTTP/2 with a too small buffer, public_address with expect_proxy, mixed expect_proxy frontends, automatic_state_save without path); 8% hazards the loader is known not to check (duplicate frontends, duplicate backends, invalid health check); non-trivial = at least 4 messages generated or more than 256; distinct = distinct op sequence";
 
 fn x1(pairs: &[(&str, String)]) -> X {
     pairs.iter().map(|(k, v)| (k.to_string(), v.clone())).collect()
@@ -124,7 +124,7 @@ fn emit(buffer: u64, activate: bool, moff: bool, gx: &X, ls: &[L], cs: &[C], vio
         ops.push("hash-order-dependent x=".into());
     }
     ops.push(format!("expect {} x=why:{}", if expect.0 { "accept" } else { "reject" }, expect.1));
-    ops.extend(["load", "msgs", "dispatch", "redispatch"].iter().map(|s| s.to_string()));
+    ops.extend(["load", "msgs", "dispatch", "redispatch", "redispatch"].iter().map(|s| s.to_string()));
     ops
 }
 
@@ -190,6 +190,20 @@ pub fn corpus() -> Vec<Vec<String>> {
         backends: vec![B { addr: "[::1]:8080".into(), id: None, x: X::new() }],
     }];
     out.push(emit(16393, true, false, &X::new(), &ls, &cs, None, (true, "documented-https-pairing-example")));
+    // one machine, two address families: shared backend_id, the v4 leg (smaller address) has the larger weight
+    let cs = vec![C {
+        id: "dual".into(),
+        tcp: false,
+        hc_bad: false,
+        x: X::new(),
+        fronts: vec![F { addr: "127.0.0.1:8080".into(), cert: None, x: x1(&[("host", "dual.example.com".into())]) }],
+        backends: vec![
+            B { addr: "127.0.0.1:4000".into(), id: Some("node-1".into()), x: x1(&[("w", "200".into())]) },
+            B { addr: "[::1]:4000".into(), id: Some("node-1".into()), x: x1(&[("w", "50".into())]) },
+            B { addr: "127.0.0.1:4001".into(), id: Some("node-1".into()), x: x1(&[("w", "120".into()), ("sid", "a".into())]) },
+        ],
+    }];
+    out.push(emit(16393, true, false, &X::new(), &[], &cs, None, (true, "shared-backend-id")));
     // hazards, minimal
     let two = |a: F, b: F| {
         vec![
@@ -501,6 +515,52 @@ pub fn gen(rng: &mut Rng, _thorough: bool) -> Vec<String> {
             let a = if rng.chance(1, 5) { format!("[::1]:{}", 3000 + bi) } else { format!("127.0.{}.{}:{}", bi / 200, 1 + bi % 200, rng.range(1024, 9999)) };
             let idv = if rng.chance(1, 3) { Some(format!("{id}-backend-{bi}")) } else { None };
             backends.push(B { addr: a, id: idv, x: bx });
+        }
+        // one machine declared once per address (v4 and v6 legs, several ports): the backends share
+        // a `backend_id` (identity is (backend_id, address)) and differ in weight / sticky_id /
+        // backup, in an order that need not follow the order of the addresses
+        if rng.chance(1, 3) {
+            let legs = rng.range(2, 5) as usize;
+            let node = format!("{id}-node{}", rng.below(3));
+            let mut addrs: Vec<String> = (0..legs)
+                .map(|j| match rng.below(3) {
+                    0 => format!("[::1]:{}", 4000 + j),
+                    1 => format!("127.0.1.{}:{}", 1 + j, 4100 + j),
+                    _ => format!("127.0.1.9:{}", 4200 + 7 * j),
+                })
+                .collect();
+            addrs.sort();
+            addrs.dedup();
+            let style = rng.below(4);
+            let n = addrs.len();
+            for (j, a) in addrs.into_iter().enumerate() {
+                let mut bx = X::new();
+                match style {
+                    0 => {
+                        bx.insert("w".into(), (200 - 40 * j.min(4)).to_string()); // weights fall while addresses rise
+                    }
+                    1 => {
+                        bx.insert("sid".into(), format!("sticky-{}", (b'z' - j as u8) as char));
+                    }
+                    2 => {
+                        bx.insert("backup".into(), if j % 2 == 0 { "true" } else { "false" }.to_string());
+                        bx.insert("w".into(), rng.range(1, 250).to_string());
+                    }
+                    _ => {
+                        if rng.chance(1, 2) {
+                            bx.insert("w".into(), rng.range(1, 250).to_string());
+                        }
+                        if rng.chance(1, 2) {
+                            bx.insert("sid".into(), format!("s{}", rng.below(5)));
+                        }
+                    }
+                }
+                let _ = n;
+                backends.push(B { addr: a, id: Some(node.clone()), x: bx });
+            }
+            if rng.chance(1, 2) {
+                rng.shuffle(&mut backends);
+            }
         }
         cs.push(C { id, tcp, hc_bad: false, x, fronts, backends });
     }
